@@ -497,6 +497,11 @@ def run(ck):
                 mism += [(s + i // 4, i % 4) for i in got]
         ck.coverage["correspondence_cases"] = 4 * len(cases)
         ck.coverage["correspondence_mismatches"] = len(mism)
+        by_stream = {}
+        for hi, si in mism:
+            k = cases[hi]["stream"] + "/" + STORES[si][0]
+            by_stream[k] = by_stream.get(k, 0) + 1
+        ck.coverage["correspondence_mismatches_by_stream"] = by_stream
         for hi, si in mism[:60]:
             c = cases[hi]
             sname = STORES[si][0]
